@@ -43,6 +43,7 @@ type c16Case struct {
 	Filter    string   `json:"filter"`         // "", "key-white-p", "db-black-1"
 	Vanish    string   `json:"vanish"`         // "", "<db>/<key>@dump", "<db>/<key>@pttl"
 	KeyFile   int      `json:"key_file_lines"` // -1: SCAN mode; n: key file with the first n keys of db 0 (+ missing ones)
+	Blank     int      `json:"blank_line,omitempty"` // key file: 0 none, k: an empty line in front of line k-1 (k-1 = n: at the end)
 }
 
 func c16Entry(k c16Key) *mredis.Entry {
@@ -95,11 +96,17 @@ func c16Run(t *testing.T, c c16Case) (kind, what string) {
 		keyfile = filepath.Join(os.Getenv("VERIF_SCRATCH"), fmt.Sprintf("c16keys-%d.txt", os.Getpid()))
 		var lines []string
 		for i := 0; i < c.KeyFile; i++ {
+			if c.Blank == i+1 {
+				lines = append(lines, "")
+			}
 			if i < len(c.Keys) {
 				lines = append(lines, c.Keys[i].Name)
 			} else {
 				lines = append(lines, fmt.Sprintf("missing%d", i))
 			}
+		}
+		if c.Blank == c.KeyFile+1 {
+			lines = append(lines, "")
 		}
 		body := strings.Join(lines, "\n")
 		if len(lines) > 0 {
@@ -502,7 +509,10 @@ func TestVerif_C16(t *testing.T) {
 	for _, sc := range []uint32{1, 2, 3} {
 		for lines := 0; lines <= 2*int(sc)+1 && lines <= 7; lines++ {
 			for _, thr := range []uint64{1 << 30, 40} {
-				run(c16Case{Keys: kf, ScanCount: sc, Threshold: thr, KeyExists: "none", TargetDB: -1, KeyFile: lines})
+				// every position of one empty line (none, in front of each line, at the end)
+				for blank := 0; blank <= lines+1; blank++ {
+					run(c16Case{Keys: kf, ScanCount: sc, Threshold: thr, KeyExists: "none", TargetDB: -1, KeyFile: lines, Blank: blank})
+				}
 			}
 		}
 	}
